@@ -254,7 +254,124 @@ def run_c15(ck, ctx):
     ck.sample(dict(note='round trips json/toml x mute x modes; every leaf of the written JSON perturbed one at a time'))
 
 
+# =============================================================== C05
+def interleavings(seqs, R, k):
+    """k random interleavings of the sender sequences preserving each sender's order"""
+    out = []
+    for _ in range(k):
+        idx = [0] * len(seqs); a = []
+        while True:
+            cand = [i for i in range(len(seqs)) if idx[i] < len(seqs[i])]
+            if not cand: break
+            i = R.choice(cand) if R.random() < 0.8 else cand[-1]
+            a.append(seqs[i][idx[i]]); idx[i] += 1
+        out.append(a)
+    return out
+
+
+def all_interleavings(seqs):
+    if all(not s for s in seqs): return [[]]
+    out = []
+    for i, s in enumerate(seqs):
+        if s:
+            rest = [x if j != i else x[1:] for j, x in enumerate(seqs)]
+            out += [[s[0]] + t for t in all_interleavings(rest)]
+    return out
+
+
+def run_c05(ck, ctx):
+    R, tier = ctx['R'], ctx['tier']
+    ok, blog = L.build_hook()
+    if not ok:
+        ck.notes.append('hook-enabled build failed: ' + blog[-1500:])
+    # ---- (1) the real StatsCollector fed every interleaving (small) / random interleavings (large)
+    if ctx['harness_ok']:
+        reqs, groups = [], []
+        for case in range(12 if tier == 'quick' else 120):
+            nsend = R.randint(2, 4) if case % 3 == 0 else R.randint(5, 13)
+            seqs = []
+            for sdr in range(nsend):
+                base = 100000 * sdr          # each sender (link) owns a disjoint offset range
+                n = R.randint(1, 3) if case % 3 == 0 else R.randint(2, 9)
+                s, off = [], base
+                for j in range(n):
+                    off += R.choice([0, 0, 64, 160])
+                    s.append(f'e:{off}:E{R.choice([10, 11, 30, 40, 991, 70])}:s{sdr}n{j}')
+                seqs.append(s)
+            seqs.append([f'l:{R.randint(0, 11)}' for _ in range(nsend)] + [f'f:{R.choice([3, 3, 4, 5])}' for _ in range(4)] + [f'r:{R.randint(1, 50)}', 'p:1234'])
+            seqs.append([f't:{R.getrandbits(32)}' for _ in range(6)] + [f's:{R.randint(0, 6)}:{R.randint(0, 3)}' for _ in range(5)] + ['h:3'])
+            if case % 3 == 0 and sum(len(s) for s in seqs[:nsend]) <= 6:
+                ils = all_interleavings(seqs[:nsend])
+                ils = [il + seqs[-2] + seqs[-1] for il in ils]
+            else:
+                ils = interleavings(seqs, R, 12 if tier == 'quick' else 60)
+            for mute in (0, 1):
+                g = []
+                for il in ils:
+                    g.append(len(reqs)); reqs.append(f'collect mute={mute} ' + ' '.join(il))
+                groups.append((case, mute, g))
+        impl = L.run_harness(reqs); model = L.run_driver(reqs)
+        dis = [(i, q[:200], a[:300], b[:300]) for i, (q, a, b) in enumerate(zip(reqs, impl, model)) if a.strip() != b.strip()]
+        ck.corr['collector'] = dict(cases=len(reqs), disagreements=len(dis))
+        bad = set()
+        for case, mute, g in groups:
+            outs = {impl[i] for i in g}
+            ck.case(('collector', case, mute)); ck.count('collector_interleavings', len(g))
+            if len(outs) > 1:
+                bad.update(g)
+                a, b = g[0], next(i for i in g if impl[i] != impl[g[0]])
+                ck.violation('collector_order', {'what': 'the finalised statistics collector depends on the arrival order of the messages',
+                                                 'mute': mute, 'arrival_a': reqs[a], 'arrival_b': reqs[b], 'result_a': impl[a][:600], 'result_b': impl[b][:600],
+                                                 'replay': f'feed both `collect` lines to {L.HARNESS}'})
+        report_dis(ck, 'collector', dis, bad)
+    # ---- (2) the real binary under schedule perturbation (hook H2)
+    if not ok:
+        ck.violation('hookbuild', {'what': 'the hook-enabled binary does not build; schedule exploration impossible', 'log': blog[-1500:]}, has_input=False)
+        return
+    wd = os.path.join(L.CACHE, 'tmp', f'c05_{os.getpid()}')
+    os.makedirs(wd, exist_ok=True)
+    nin = 2 if tier == 'quick' else 10
+    nsched = 6 if tier == 'quick' else 40
+    distinct_orders = 0
+    for si in range(nin):
+        pk, meta = erroneous_stream(R, nlinks=R.randint(6, 12), nfaults=R.randint(25, 60), max_hbf=4)
+        # several errors at the same offset: stop bit 2 gives [E10] and [E11] on one RDH
+        for _ in range(6):
+            k = R.randrange(1, len(pk)); pk[k].rdh['stop'] = 2
+        inp = os.path.join(wd, f'in{si}.raw'); open(inp, 'wb').write(G.encode(pk))
+        for m, fmt, mute in [(('all', 'its'), 'json', []), (('all', 'stave'), 'toml', []), (('all', None), 'json', ['-m']), (('all', 'its'), 'toml', ['-m'])]:
+            outs, orders = {}, set()
+            for sd in range(nsched):
+                sp = os.path.join(wd, f'st.{fmt}'); tr = os.path.join(wd, 'trace.txt')
+                for f in (sp, tr):
+                    if os.path.exists(f): os.remove(f)
+                env = dict(os.environ, FASTPASTA_VERIF_SCHED=str(1 + sd + 1000 * ctx['seed'] % 99991), FASTPASTA_VERIF_TRACE=tr)
+                r = subprocess.run([L.HOOKBIN, inp] + mode_args(m) + mute + ['-S', sp, '-D', fmt, '-E', '3'], stdout=subprocess.PIPE, stderr=subprocess.PIPE, env=env, timeout=300)
+                errlines = [l for l in L.ANSI.sub('', r.stderr.decode('utf-8', 'replace')).split('\n') if l.startswith('ERROR')]
+                report = '\n'.join(l for l in L.ANSI.sub('', r.stdout.decode('utf-8', 'replace')).split('\n') if 'Processed in' not in l and 'ms' not in l.split('|')[-1:][0])
+                stats = open(sp, 'rb').read() if os.path.exists(sp) else b''
+                key = (tuple(errlines), stats, r.returncode)
+                outs.setdefault(key, sd)
+                if os.path.exists(tr):
+                    orders.add(hash(tuple(l for l in open(tr) if 'collector:error' in l)))
+            distinct_orders += len(orders)
+            ck.case(('sched', si, m, fmt, bool(mute))); ck.count('schedules_run', nsched); ck.count('distinct_arrival_orders', len(orders))
+            if len(outs) > 1:
+                ks = list(outs)
+                diff = 'error order' if ks[0][0] != ks[1][0] else ('statistics bytes' if ks[0][1] != ks[1][1] else 'exit status')
+                ck.violation('schedule', {'what': 'results depend on thread scheduling: ' + diff, 'args': mode_args(m) + mute + ['-D', fmt], 'distinct_outcomes': len(outs),
+                                          'seeds': [outs[k] for k in ks[:2]], 'first_differing_errors': [(a, b) for a, b in zip(ks[0][0], ks[1][0]) if a != b][:3],
+                                          'input_hex': G.encode(pk).hex()[:400000], 'replay': f'FASTPASTA_VERIF_SCHED=<seed> {L.HOOKBIN} in.raw ' + ' '.join(mode_args(m) + mute)})
+    ck.dist['distinct_arrival_orders_total'] = distinct_orders
+    shutil.rmtree(wd, ignore_errors=True)
+    ck.sample(dict(note='real binary with hook H2 run under different perturbation seeds; arrival order at the collector traced'))
+
+
 CHECKS = {
+    'C05': dict(modules=['FastPasta.Props.C05'], run=run_c05, needs_harness=True, corr='collector',
+                theorems=['FastPasta.C05.schedule_independent', 'FastPasta.C05.display_and_exit_independent', 'FastPasta.C05.field_run', 'FastPasta.C05.field_indep',
+                          'FastPasta.C05.counter_indep', 'FastPasta.C05.alpide_indep', 'FastPasta.C05.errors_run', 'FastPasta.sortStable_congr', 'FastPasta.sorted_unique',
+                          'FastPasta.sortStable_sorted', 'FastPasta.sortStable_filter', 'FastPasta.interleave_filter', 'FastPasta.interleave_sum', 'FastPasta.interleave_any']),
     'C15': dict(modules=['FastPasta.Props.C15'], run=run_c15, needs_harness=False, corr='statscmp_model',
                 theorems=['FastPasta.C15.validate_complete', 'FastPasta.C15.validate_refl', 'FastPasta.C15.drift_detected', 'FastPasta.C15.drift_sets_exit',
                           'FastPasta.C15.mismCounters_nil']),
